@@ -77,6 +77,8 @@ fn audit_loop<E: AEnv>(cfg: &AuditCfg, env: &mut E, mut update: impl FnMut(&mut 
     }
     env.do_step(&mut rng);
     let n_traders = (thi - tlo) as usize;
+    let mut mom_m: f64 = 0.0;
+    let mut mom_last: Option<f64> = None;
     for step in 0..cfg.steps {
         // the harness keeps the market moving (trader 9000): improve a touch, or hit the book
         {
@@ -92,6 +94,20 @@ fn audit_loop<E: AEnv>(cfg: &AuditCfg, env: &mut E, mut update: impl FnMut(&mut 
         let before: Vec<(Status, u32, bool)> = env.book(a).get_orders().iter().map(|o| (o.status, o.trader_id, is_market(o.side, o.price))).collect();
         let n_before = before.len();
         let mid = env.book(a).mid_price();
+        // the documented momentum recursion on the mids the agent observes (momentum agents only)
+        let mut mom_now: Option<(f64, f64, f64)> = None; // (M, p_market, p_limit)
+        if sp.kind == 'M' {
+            let (decay, demand, scale, ratio) = (frac(&sp.f[5]), frac(&sp.f[6]), frac(&sp.f[7]), frac(&sp.f[8]));
+            let nn: f64 = sp.f[1].parse::<f64>().unwrap();
+            if let Some(p) = mom_last {
+                mom_m = mom_m * (1.0 - decay) + decay * (mid - p);
+                let pm = (demand * (scale * mom_m).tanh() / nn).abs();
+                mom_now = Some((mom_m, pm, ratio * pm));
+            } else {
+                mom_now = Some((0.0, 0.0, 0.0));
+            }
+            mom_last = Some(mid);
+        }
         let r = catch_unwind(AssertUnwindSafe(|| update(env, &mut rng)));
         if r.is_err() {
             out.verdict = Err(format!("agent_aborted@step{}", step));
@@ -121,6 +137,11 @@ fn audit_loop<E: AEnv>(cfg: &AuditCfg, env: &mut E, mut update: impl FnMut(&mut 
                 _ => {
                     let vol: u32 = if sp.kind == 'N' { sp.f[6].parse().unwrap() } else { sp.f[4].parse().unwrap() };
                     if o.vol != vol || o.start_vol != vol { fail = Some("volume_not_configured".into()); break; }
+                    if let Some((m, _, _)) = mom_now {
+                        if m > 0.0 && !is_bid(o.side) { fail = Some("sell_with_positive_momentum".into()); break; }
+                        if m < 0.0 && is_bid(o.side) { fail = Some("buy_with_negative_momentum".into()); break; }
+                        if m == 0.0 { fail = Some("order_with_zero_momentum".into()); break; }
+                    }
                     if !mkt {
                         if o.price % tick != 0 { fail = Some("price_off_grid".into()); break; }
                         if is_bid(o.side) && f64::from(o.price) > mid { fail = Some("buy_above_observed_mid".into()); break; }
@@ -143,6 +164,7 @@ fn audit_loop<E: AEnv>(cfg: &AuditCfg, env: &mut E, mut update: impl FnMut(&mut 
             None
         };
         let mut cf: Option<String> = None;
+        let mut expect_cancel: Vec<usize> = Vec::new();
         match sp.kind {
             'N' => {
                 cf = corner(frac(&sp.f[3]), &per_trader_limit, "limit").or_else(|| corner(frac(&sp.f[4]), &per_trader_market, "market"));
@@ -150,6 +172,26 @@ fn audit_loop<E: AEnv>(cfg: &AuditCfg, env: &mut E, mut update: impl FnMut(&mut 
             'R' => {
                 let rate = frac(&sp.f[6]);
                 if rate <= 0.0 && out.orders > 0 { cf = Some("probability_0_happened:activity".into()); }
+                if rate >= 1.0 {
+                    // every trader is activated: one whose latest order is Active cancels it (and places
+                    // nothing), every other trader places exactly one new order
+                    for t in tlo..thi {
+                        let last = before.iter().rposition(|(_, tr, _)| *tr == t);
+                        let holds_active = last.map(|i| matches!(before[i].0, Status::Active)).unwrap_or(false);
+                        let placed = per_trader_limit[(t - tlo) as usize];
+                        if holds_active && placed != 0 { cf = Some("probability_1:holder_placed_instead_of_cancelling".into()); break; }
+                        if !holds_active && placed != 1 { cf = Some("probability_1_skipped:activity".into()); break; }
+                        if holds_active { expect_cancel.push(last.unwrap()); }
+                    }
+                }
+            }
+            'M' => {
+                if let Some((m, pm, pl)) = mom_now {
+                    // documented probabilities at the corners (a margin keeps float noise out of the >= 1 corner)
+                    let pm_c = if m == 0.0 || pm <= 0.0 { 0.0 } else if pm >= 1.000001 { 1.0 } else { 0.5 };
+                    let pl_c = if m == 0.0 || pl <= 0.0 { 0.0 } else if pl >= 1.000001 { 1.0 } else { 0.5 };
+                    cf = corner(pl_c, &per_trader_limit, "limit").or_else(|| corner(pm_c, &per_trader_market, "market"));
+                }
             }
             _ => {}
         }
@@ -187,6 +229,10 @@ fn audit_loop<E: AEnv>(cfg: &AuditCfg, env: &mut E, mut update: impl FnMut(&mut 
             }
             let _ = own_active;
         } else {
+            // an activated holder's order leaves the book in this step (cancelled, or traded away first)
+            for i in expect_cancel.iter() {
+                if matches!(orders[*i].status, Status::Active) { out.verdict = Err(format!("probability_1_skipped:cancel@step{}", step)); return out; }
+            }
             for t in tlo..thi {
                 let live = orders.iter().filter(|o| o.trader_id == t && matches!(o.status, Status::Active | Status::New)).count();
                 if live > 1 { out.verdict = Err(format!("random_agent_two_live_orders@step{}", step)); return out; }
@@ -255,7 +301,10 @@ pub struct MomCfg {
     pub demand: String,
     pub scale: String,
     pub p_cancel: String,
-    pub path: Vec<i64>, // grid index of the mid at each step (mid = idx * tick)
+    pub path: Vec<i64>, // grid index of the mid at each step (mid = (offset + idx) * tick)
+    /// grid-index offset of the whole path: 0 (mids around 500 ticks) or large (mids around 10^8,
+    /// where a single-precision float no longer holds a price exactly)
+    pub offset: i64,
 }
 
 pub struct MomOut {
@@ -274,7 +323,7 @@ fn mom_loop<E: AEnv>(cfg: &MomCfg, env: &mut E, a: usize, mut update: impl FnMut
             for q in quotes.drain(..) { env.qcancel(a, q); }
             env.do_step(&mut rng);
         }
-        let level = (*idx as u32) * cfg.tick;
+        let level = ((cfg.offset + *idx) as u32) * cfg.tick;
         let n0 = env.book(a).get_orders().len();
         env.submit(a, Side::Bid, 1_000_000, 9000, Some(level - cfg.tick));
         env.submit(a, Side::Ask, 1_000_000, 9000, Some(level + cfg.tick));
@@ -339,12 +388,14 @@ pub fn gen_mom_cfg(rng: &mut Xoroshiro128StarStar, saturated: bool) -> MomCfg {
         seed: rng.gen_range(0..1_000_000),
         n,
         decay: ["1", "1/2", "1/4", "3/4"][rng.gen_range(0..4)].into(),
-        ratio: ["0", "1", "1"][rng.gen_range(0..3)].into(),
+        // 1/2 with saturated demand 4n: limit-order probability 2 >= 1, still deterministic
+        ratio: if saturated { ["0", "1", "1", "1/2"][rng.gen_range(0..4)].into() } else { ["0", "1", "1"][rng.gen_range(0..3)].into() },
         // saturated: |demand * tanh(scale * M) / n| >= 1 whenever M != 0
         demand: if saturated { (4 * n).to_string() } else { ["1", "2"][rng.gen_range(0..2)].into() },
         scale: if saturated { "1099511627776".into() } else { ["1/100", "1/8", "1/2"][rng.gen_range(0..3)].into() },
         p_cancel: ["0/1", "1/2", "1/1"][rng.gen_range(0..3)].into(),
         path,
+        offset: if rng.gen::<f64>() < 0.25 { (100_000_000 / tick) as i64 + rng.gen_range(0..8) } else { 0 },
     }
 }
 
@@ -353,12 +404,12 @@ impl MomCfg {
         let c: i64 = 500;
         MomCfg { multi: self.multi, tick: self.tick, seed: self.seed, n: self.n, decay: self.decay.clone(), ratio: self.ratio.clone(),
                  demand: self.demand.clone(), scale: self.scale.clone(), p_cancel: self.p_cancel.clone(),
-                 path: self.path.iter().map(|p| 2 * c - p).collect() }
+                 path: self.path.iter().map(|p| 2 * c - p).collect(), offset: self.offset }
     }
     pub fn line(&self) -> String {
-        format!("{} tick={} seed={} n={} decay={} ratio={} demand={} scale={} pcancel={} path={}", if self.multi { "menv" } else { "env" }, self.tick, self.seed,
+        format!("{} tick={} seed={} n={} decay={} ratio={} demand={} scale={} pcancel={} path={} offset={}", if self.multi { "menv" } else { "env" }, self.tick, self.seed,
             self.n, self.decay, self.ratio, self.demand, self.scale, self.p_cancel,
-            self.path.iter().map(|p| p.to_string()).collect::<Vec<_>>().join(","))
+            self.path.iter().map(|p| p.to_string()).collect::<Vec<_>>().join(","), self.offset)
     }
 }
 
